@@ -39,19 +39,20 @@ fn files_of(l: &Listing) -> BTreeMap<Comps, Vec<u8>> {
 }
 /// independent normalisation of a requested path: components below the root, None = not a path below the root
 fn norm(raw: &str, root: &str) -> Option<Comps> {
-    let rel = if raw.starts_with('/') {
-        if raw == root {
-            ""
-        } else {
-            raw.strip_prefix(&format!("{root}/"))?
-        }
-    } else {
-        raw
-    };
-    if rel.split('/').any(|s| s == "..") {
+    if raw.split('/').any(|s| s == "..") {
         return None;
     }
-    Some(rel.split('/').filter(|s| !s.is_empty() && *s != ".").map(|s| s.as_bytes().to_vec()).collect())
+    let c = |s: &str| -> Comps { s.split('/').filter(|x| !x.is_empty() && *x != ".").map(|x| x.as_bytes().to_vec()).collect() };
+    if raw.starts_with('/') {
+        let (a, b) = (c(raw), c(root));
+        if a.len() >= b.len() && a[..b.len()] == b[..] {
+            Some(a[b.len()..].to_vec())
+        } else {
+            None
+        }
+    } else {
+        Some(c(raw))
+    }
 }
 fn code_of_msg(m: &str) -> u64 {
     if m.contains("path escapes workspace root") {
